@@ -110,6 +110,16 @@ pub fn mutations<V: Fv>(valid: &[u8], ty: Ty, rng: &mut ChaCha20Rng, flips: usiz
         e.extend(rand_bytes(rng, d));
         out.push((format!("extend-rand-{}", d), e));
     }
+    // extensions by powers of two (a length kept in a narrowed integer type wraps at 2^8 / 2^16
+    // bytes or bits): zero and random fill
+    for d in [32usize, 256, 8192, 16384, 65536] {
+        let mut e = valid.to_vec();
+        e.extend(vec![0u8; d]);
+        out.push((format!("extend-zero-pow2-{}", d), e));
+        let mut e = valid.to_vec();
+        e.extend(rand_bytes(rng, d));
+        out.push((format!("extend-rand-pow2-{}", d), e));
+    }
     // the other variant's lengths and a few odd ones, with this header
     for l in [0usize, 1, 2, 40, 41, 42, 666, 897, 1280, 1281, 1793, 2305, 2400] {
         let mut b = rand_bytes(rng, l);
